@@ -127,8 +127,16 @@ func init() {
 				}
 			}
 		}
-		run(nil, []int{}, "Resample", 3, 1, 1, false)
-		run([][2]int{}, []int{}, "Resample", 3, 1, 1, false)
+		// lines without a vertex (nil, and empty with or without spare capacity behind them) and with one vertex, for every
+		// count and interval: returned as they are
+		for _, n := range []int{-1, 0, 1, 2, 3, 4, 7, 13} {
+			run(nil, []int{}, "Resample", n, 1, 1, false)
+			run([][2]int{}, []int{}, "Resample", n, 1, 1, false)
+			run([][2]int{{3, 4}}, []int{}, "Resample", n, 1, 1, false)
+			run(nil, []int{}, "ToInterval", 0, n, 2, false)
+			run([][2]int{}, []int{}, "ToInterval", 0, n, 1, false)
+			run([][2]int{{3, 4}}, []int{}, "ToInterval", 0, n, 2, false)
+		}
 		run(nil, []int{}, "ToInterval", 0, 1, 2, false)
 		run([][2]int{}, []int{}, "ToInterval", 0, 3, 1, false)
 		// (2) seeded: longer paths, N to 25, intervals d = dn/dd (dyadic), L1 metric on arbitrary integer paths
